@@ -287,7 +287,7 @@ private theorem rawProg_bare : rawProg.bare = true := by
   have h := raw_checks
   simp only [rawChecks, Bool.and_eq_true] at h
   simp only [Prog.bare, Bool.and_eq_true]
-  exact ⟨h.1.1.1.1.1.1, h.1.1.1.1.1.2⟩
+  exact ⟨h.1.1.1.1.1.1.1, h.1.1.1.1.1.1.2⟩
 
 /-- **redaction is a function of the decoded document, never of its spelling**: the output is the raw text itself
 when the decoded first value holds nothing to redact (or nothing decodes), and otherwise the encoding of
@@ -397,6 +397,31 @@ example : (progOf fastPathSteps).bare = false ∧ (progOf fastPathSteps).piped =
 example : (parseDoc (redactedRaw (progOf fastPathSteps) noUnk encR docPlain)).map (cleanJ false) = some true ∧
     redactedRaw (progOf fastPathSteps) noUnk encR docEsc = docEsc ∧
     (parseDoc (redactedRaw (progOf fastPathSteps) noUnk encR docEsc)).map (cleanJ false) = some false := by decide +kernel
+
+/-! ### copy on write inside a decoded hole
+
+`frame` treats the replacement of a hole as one step; the walker below it works on a tree of maps and slices that a
+filter's `Config` SHARES with the live configuration.  `walkCfg` is read off the regenerated list of the walker's
+stores: a store whose container is not allocated by the same call (`x[i] = ne` instead of `cp[i] = ne`) sets a flag. -/
+
+/-- every store of `redactJSONValue` goes to a container the call allocated with `make` -/
+theorem walk_checks : walkChecks = true := by decide +kernel
+
+/-- **the walk writes no cell of the tree it is given** — for every document: redacted elements of arrays and members
+of objects are stored into copies, so the live filter config (and what is persisted from it) keeps its keys. -/
+theorem hole_walk_frame (j : Json) : wWrites walkCfg j = 0 := by
+  have h := walk_checks
+  simp only [walkChecks, beq_iff_eq] at h
+  rw [h]; exact wWrites_cow j
+
+/-- witness: a walker whose array clause stores the redacted element back into the slice it was given writes the
+live tree exactly where a key sits below an array (and only there) -/
+private def docArr : Json := .obj [("servers", .arr [.obj [("tls_context", .obj [("private_key", .str "KEY")])], .str "x"])]
+private def docNoArr : Json := .obj [("tls_context", .obj [("private_key", .str "KEY")])]
+example : walkCfgOf [("[]interface{}", "x", "x[i] = ne"), ("map[string]interface{}", "cp", "cp[k] = ne")]
+    ["cp = make(map[string]interface{}, len(x))"] = ⟨false, true, false⟩ := by decide +kernel
+example : wWrites ⟨false, true, false⟩ docArr = 1 ∧ wWrites ⟨false, true, false⟩ docNoArr = 0 ∧
+    cleanJ false docArr = false := by decide +kernel
 
 end Raw
 
